@@ -292,6 +292,81 @@ func extractStore(t *T) (string, error) {
 	rejectsNoBlocks := gerr != nil
 	_ = got
 
+
+	// ---- store/write_controlled_store.go: the per-message lock table ----
+	const wrel = "store/write_controlled_store.go"
+	wf, err := t.ParseFile(wrel)
+	if err != nil {
+		return "", err
+	}
+	// position of the first top-level `w.lock.Lock()` statement followed by `defer w.lock.Unlock()` in a function body
+	topLock := func(fd *ast.FuncDecl) token.Pos {
+		for i, st := range fd.Body.List {
+			if normSrc(t.Src(wrel, st)) == "w.lock.Lock()" && i+1 < len(fd.Body.List) &&
+				normSrc(t.Src(wrel, fd.Body.List[i+1])) == "defer w.lock.Unlock()" {
+				return st.Pos()
+			}
+		}
+		return token.NoPos
+	}
+	relDecUnderLock, relKnown, relDeletesAndPuts := false, false, false
+	if fd := FuncDecl(wf, "WriteControlledStore", "releaseSyncRef"); fd != nil {
+		lockPos := topLock(fd)
+		var decPos token.Pos
+		ast.Inspect(fd.Body, func(n ast.Node) bool {
+			if call, ok := n.(*ast.CallExpr); ok && decPos == token.NoPos {
+				if normSrc(t.Src(wrel, call)) == "atomic.AddInt32(&ref.counter, -1)" {
+					decPos = call.Pos()
+				}
+			}
+			return true
+		})
+		if decPos != token.NoPos {
+			relKnown = true
+			relDecUnderLock = lockPos != token.NoPos && lockPos < decPos
+		}
+		src := normSrc(t.Src(wrel, fd.Body))
+		relDeletesAndPuts = strings.Contains(src, "delete(w.entryTable, id) w.lockPool.Put(ref)")
+	}
+	if !relKnown {
+		return "", fmt.Errorf("releaseSyncRef: the decrement of the counter was not recognised")
+	}
+	acqUnderLock, acqResets, acqIncrements, poolNewOne := false, false, false, false
+	if fd := FuncDecl(wf, "WriteControlledStore", "acquireSyncRef"); fd != nil {
+		lockPos := topLock(fd)
+		acqUnderLock = lockPos != token.NoPos && len(fd.Body.List) > 0 && fd.Body.List[0].Pos() == lockPos
+		src := normSrc(t.Src(wrel, fd.Body))
+		iReset := strings.Index(src, "v.counter = 1")
+		iIns := strings.Index(src, "w.entryTable[id] = v")
+		acqResets = iReset >= 0 && iIns >= 0 && iReset < iIns
+		acqIncrements = strings.Contains(src, "atomic.AddInt32(&v.counter, 1) return v")
+	}
+	if fd := FuncDecl(wf, "", "NewWriteControlledStore"); fd != nil {
+		poolNewOne = strings.Contains(normSrc(t.Src(wrel, fd.Body)), "return &syncRef{counter: 1}")
+	}
+	// Get / Set / Delete: acquire; defer release; take the object's RWMutex; defer its unlock (runs before the release)
+	opsShape := true
+	for _, o := range []struct{ fn, lock, unlock string }{
+		{"Get", "syncRef.lock.RLock()", "defer syncRef.lock.RUnlock()"},
+		{"Set", "syncRef.lock.Lock()", "defer syncRef.lock.Unlock()"},
+		{"Delete", "syncRef.lock.Lock()", "defer syncRef.lock.Unlock()"},
+	} {
+		fd := FuncDecl(wf, "WriteControlledStore", o.fn)
+		if fd == nil {
+			opsShape = false
+			continue
+		}
+		src := normSrc(t.Src(wrel, fd.Body))
+		i1 := strings.Index(src, "syncRef := w.acquireSyncRef(")
+		i2 := strings.Index(src, "defer w.releaseSyncRef(")
+		i3 := strings.Index(src, o.lock)
+		i4 := strings.Index(src, o.unlock)
+		i5 := strings.Index(src, "return w.impl."+o.fn+"(")
+		if !(i1 >= 0 && i1 < i2 && i2 < i3 && i3 < i4 && i4 < i5) {
+			opsShape = false
+		}
+	}
+
 	var sb strings.Builder
 	sb.WriteString("From Coq Require Import List NArith Bool.\nImport ListNotations.\nLocal Open Scope N_scope.\n\n")
 	sb.WriteString("(* store/disk.go *)\n")
@@ -316,5 +391,11 @@ func extractStore(t *T) (string, error) {
 	sb.WriteString("Definition builder_installs_no_fallback : bool := " + coqBool(builderNoFallback) + ".\n")
 	sb.WriteString("(* executed: Get on a file cut after header and nonce reports an error *)\n")
 	sb.WriteString("Definition get_rejects_end_of_data : bool := " + coqBool(rejectsNoBlocks) + ".\n")
+	sb.WriteString("(* store/write_controlled_store.go: the lock table *)\n")
+	sb.WriteString("Definition release_decrements_under_lock : bool := " + coqBool(relDecUnderLock) + ".\n")
+	sb.WriteString("Definition release_deletes_entry_and_pools : bool := " + coqBool(relDeletesAndPuts) + ".\n")
+	sb.WriteString("Definition acquire_is_one_critical_section : bool := " + coqBool(acqUnderLock && acqIncrements) + ".\n")
+	sb.WriteString("Definition acquire_resets_counter : bool := " + coqBool(acqResets && poolNewOne) + ".\n")
+	sb.WriteString("Definition ops_unlock_before_release : bool := " + coqBool(opsShape) + ".\n")
 	return sb.String(), nil
 }
